@@ -4,6 +4,7 @@ import json, os
 V = '/verif'
 props = [json.loads(l) for l in open(f'{V}/properties.jsonl')]
 TEXT = {
+ 'C17': "Coq theorems (Props/C17.v, closed): the default table, re-read from /repo's CSV into Generated/DefaultTable.v on every run, translates each of the 64 codons as the standard genetic code on both strands (finite check lifted by forallb_forall); for any table the codon chosen for an amino acid has the minimal rank and SNVRE's fallback is second in rank; synonymous sets are exact; all lookups are invariant under permutation of the rows (distinct codons, distinct ranks per amino acid); minus-strand lookups are reverse complements of plus-strand lookups; accepted loader rows have the documented shape. Tied to CodonTable/codon_table_loader by S-api comparison of ~200 lookups per table on random tables (incl. ties, duplicates, missing codons, rows sorted by codon) and malformed rows, and by file-level runs with shuffled and malformed custom tables. float() and int() grammars are run for real, not modelled (partial).",
  'C05': "Coq theorems (Props/C05.v, all closed) over a literal model of genomic_position_offsets.py / seq_converter.py: apply_variants = splice and |ALT| = |REF| + net inserted bases; from_var_stats accepts every sorted non-overlapping SNV/MNV/insertion/deletion set and its offsets tables and mask arrays compute the specification r2a/a2r/touches (refinement theorems); r2a and a2r are mutual inverses, strictly order-preserving in both directions, None exactly on deleted/inserted bases, identity before the context; the REF-variant overlap test is exact. Tied to the code by an exhaustive small-scope sweep comparing the full table of lookups (incl. nearest-before/after, range lifting with and without shrink, both overlap tests, refusals) with the model under vm_compute, plus apply_variants on random and ill-formed inputs. Nearest/range-lift/ALT-overlap lookups are covered by the correspondence and the independent cell-list oracle, not yet by theorems (partial); the single-base ALT overlap at an insertion point is a recorded known finding.",
  'C02': "Coq theorems (Props/C02.v, closed under the global context) that the model of IntPatternBuilder.build / Seq.subseq_window / DeletionMutator / SnvMutator emits exactly one full-length deletion per fitting window and exactly the 3 SNVs per base, for every region length, span and offset; the model is tied to the code by an exhaustive S-api sweep and by random SGE/cDNA runs compared row by row through vm_compute, and an independent spec oracle is applied to the implementation's rows to produce failing inputs.",
  'C18': "Coq theorems (Props/C18.v) that for every accepted targeton the segments const1, r1, r2, r3, const2 (empties omitted) form a chain covering exactly [ref_start, ref_end], that the reported sequences concatenate to the reference sequence, and that r1/r3 have the extension-vector lengths and flank r2; tied to TargetonConfig by an exhaustive small-scope S-api sweep (valid and invalid targetons) and to ref_sequences.csv by random runs incl. --sequences-only and two contigs.",
